@@ -101,6 +101,11 @@ func c19Statements(r *rt.Rand, p string, n int, mutable bool) []string {
 		"select quantile(float(value), 0.5), count(1) where key ^= '%[1]s'",
 		"select * where key = '%[1]s001' | key = '%[1]s002'",
 		"select * where false & key ^= '%[1]s'",
+		// unsatisfiable on their face (planned without any scan)
+		"select * where key = '%[1]s001' & key = '%[1]s002'",
+		"select key where key ^= '%[1]sx' & key ^= '%[1]sy'",
+		"select count(1) where key < ''",
+		"select * where key in ('%[1]s001') & key > '%[1]s5'",
 		// function names written in back quotes and mixed case (resolved case-insensitively at run time)
 		"select `upper`(key), `lower`(value), `cosine_distance`(`float_list`(1, 2), `float_list`(`strlen`(key), 2)) where key ^= '%[1]s'",
 		"select key where key ^= '%[1]s' & `is_int`(value) & `strlen`(value) > 0",
